@@ -36,3 +36,12 @@ def k2(info):
 def k3(info):
     """K3: an object pattern with a pair whose (literal) key is "_" """
     return bool(re.search(r'\{[^{}]*"_"\s*:', info.get("input", "")))
+
+
+@signature("slot_in_parenthesised_literal")
+def k4(info):
+    """K4: the failing position belongs to a diagnostic raised inside a slot of an interpolated literal that is directly
+    inside parentheses (the string node then carries the position of the `(`)"""
+    d = info.get("details") or {}
+    return bool(d.get("slot_in_parenthesised_literal")) or bool(re.search(r'\(\s*\$"[^"]*\$\{', info.get("input", "")) and
+                                                            re.search(r":\d+:\d+: \d+:\d+: ", _cli_stderr(info)))
